@@ -64,6 +64,8 @@ def run(pid, tier):
     # comments (their bodies are not UTF-8 checked) and stray bytes that are not UTF-8, at every position of templates using every construct
     bases = [b"@(a: usize, b: &str)\nx", b"@<'a>(a: &'a str, c: Content)\n@:c()", b"@(v: Vec<(u8, impl ToHtml)>, f: &dyn Fn(u8) -> u8)\n",
              b"@use a::b;\n@(x: impl ToHtml)\n@if x {a} else {b}@for i in xs {@i}@match m { A => {a} _ => {} }@:f(a, {b})@(1 + 2)@x.y(z)[0]"]
+    # ... and of rejected ones: the diagnostic of a later, valid line must still echo that line
+    bases += [b"@(a: usize)\nline two\n@if {\nfour\n", b"@use a::b;\n@(x: u8)\n<p>\n@for x in {\n", b"@()\nok\n}\n"]
     for base in bases:
         for i in range(len(base) + 1):
             for ins in (b"@*\xff*@", b"@*\xc3*@", b"@* \xc3\xa9 *@", b"\xff", b" @*\x80*@ "):
